@@ -130,9 +130,9 @@ func cmdCheck(args []string) {
 	ld := load()
 	fmt.Printf("[%s %s] loaded %s + harness in %.1fs\n", *prop, *tier, repoRoot, ld.loadS)
 
-	maxCross := 25
+	maxCross, maxSamples := 25, 8
 	if *tier == "thorough" {
-		maxCross = 150
+		maxCross, maxSamples = 150, 16
 	}
 	var cross []interp.CrossQuery
 	var inconclusive []string
@@ -158,7 +158,7 @@ func cmdCheck(args []string) {
 			budget, _ = time.ParseDuration(r.Budget)
 		}
 		ex := interp.NewExplorer(ld.prog, interp.RunConfig{Fn: fn, Name: r.Fn, Params: r.Params, Explore: r.Explore, PB: pb, Race: r.Race,
-			Workers: *workers, Budget: budget, SolverArgv: solverArgv(), Seed: seed, MaxSamples: 4, Unwind: r.Unwind, MaxCross: maxCross})
+			Workers: *workers, Budget: budget, SolverArgv: solverArgv(), Seed: seed, MaxSamples: maxSamples, Unwind: r.Unwind, MaxCross: maxCross})
 		ex.Run()
 		sched := "seq"
 		if r.Explore {
